@@ -56,6 +56,8 @@ def mutants(prog):
         ("warp_points drops convention", "deepali.core.flow", "warp_points", "sample_flow(flow, coords, align_corners=align_corners)", "sample_flow(flow, coords)", "T67.nonrigid-points"),
         ("pointset: input axes", T, "PointSetTransformer.forward", "points = self._grid.transform_points(points, axes=self._axes,", "points = self._grid.transform_points(points, axes=self._to_axes,", "T67.pointset"),
         ("transformer: default source is the transform grid", T, "ImageTransformer.__init__", "source = target", "source = transform.grid()", "T67.warp"),
+        ("data(): buffers of the original cleared instead of the copy's", P, "ParametricTransform.data", "copy.clear_buffers()\n    return copy", "self.clear_buffers()\n    return copy", "T67.derived-views"),
+        ("disp: flag-only difference not re-expressed", B, "SpatialTransform.disp", "if grid != self.grid() or grid.align_corners() != self.align_corners():", "if grid != self.grid():", "T67.views"),
     ]
     for name, mod, fn, old, new, expect in specs:
         ov = source_sub(prog, mod, fn, old, new)
